@@ -1,5 +1,5 @@
 (* C03 — a saved package is a conforming ODF zip container with a truthful manifest. *)
-From Odf Require Import model.Base model.XmlLex model.XmlTree model.NsTable model.Package proofs.PackageProofs.
+From Odf Require Import model.Base model.XmlLex model.XmlTree model.NsTable model.Package model.PackageCheck proofs.PackageProofs proofs.PackageNoDup.
 
 (* first entry: 'mimetype', stored, no extra field, exactly the media type *)
 Theorem C03_mimetype_first : forall t,
@@ -41,3 +41,21 @@ Theorem C03_pictures_embedded : forall t d p, embedded (t_root t) d -> In p (o_p
   In (objfolder d ++ pc_name p, pc_mt p) (snd (save_m t)).
 Proof. exact pictures_of_embedded_object. Qed.
 Print Assumptions C03_pictures_embedded.
+
+(* no member name occurring twice.  A member name is a folder path followed by a local name; `core t` lists
+   the (folder, local name) pairs of everything the library names itself.  When those pairs are distinct
+   (no folder given to two documents of the tree, no picture name twice in one document, none equal to a
+   part's name), the folders have the shape addObject gives them and no local name starts like a folder
+   (`shape_ok`), and the opaque extra files are called like nothing else (`extras_apart`), no two members
+   have one name.  The check evaluates the three premises on the model image of every real document it
+   saves; the recorded findings of this clause are inputs on which `pairs_distinct` is false. *)
+Theorem C03_no_member_twice : forall t,
+  pairs_distinct t = true -> shape_ok (core t) = true -> extras_apart t = true ->
+  NoDup (map e_name (fst (save_m t))).
+Proof. exact no_member_twice. Qed.
+Print Assumptions C03_no_member_twice.
+
+(* what the premises rest on: distinct pairs with well-shaped folders never collide as full names *)
+Theorem C03_names_injective : forall l x y, shape_ok l = true -> In x l -> In y l -> cat x = cat y -> x = y.
+Proof. exact cat_inj. Qed.
+Print Assumptions C03_names_injective.
